@@ -205,13 +205,13 @@ fn run_root_case(
     let _ = fs::remove_dir_all(&top);
 }
 
-fn suite_root(ctx: &mut Ctx, seed: u64, n: usize) {
+fn suite_root(ctx: &mut Ctx, seed: u64, n: usize, class: gen::OpClass) {
     let mut rng = Rng::new(seed);
     for i in 0..n {
         let mut crng = rng.fork();
         let case_seed = crng.0;
         let spec = TreeSpec::generate(&mut crng, 14);
-        let op = gen::gen_op(&mut crng, &spec);
+        let op = gen::gen_op_in(&mut crng, &spec, class);
         let rflags = if crng.chance(1, 5) {
             ResolverFlags::NO_SYMLINKS
         } else {
@@ -282,7 +282,12 @@ fn main() {
     warm_up(&work);
     match cmd.as_str() {
         "probe" => probe(&mut ctx),
-        "root" => suite_root(&mut ctx, seed, n),
+        "root" => {
+            let class = arg_val(&args, "--ops")
+                .and_then(|s| gen::OpClass::parse(&s))
+                .unwrap_or(gen::OpClass::All);
+            suite_root(&mut ctx, seed, n, class)
+        }
         other => {
             eprintln!("unknown command {other:?}");
             std::process::exit(2);
